@@ -2,6 +2,7 @@ package sym
 
 import (
 	"fmt"
+	"strings"
 	"go/types"
 
 	"golang.org/x/tools/go/ssa"
@@ -97,6 +98,10 @@ func (e *Engine) invoke(st *State, th *Thread, fnv Value, args []Value, inst ssa
 		finish(nil)
 		return
 	}
+	if fn.Pkg != nil && strings.HasPrefix(fn.Name(), "Register") && protoPkgs[fn.Pkg.Pkg.Path()] {
+		finish(e.zeroResults(fn))
+		return
+	}
 	if fn.Pkg != nil && fn.Signature.Recv() != nil && stubMethodPkgs[fn.Pkg.Pkg.Path()] {
 		e.res.Stubs["stub-methods:"+fn.Pkg.Pkg.Path()]++
 		finish(e.zeroResults(fn))
@@ -117,6 +122,12 @@ func (e *Engine) invoke(st *State, th *Thread, fnv Value, args []Value, inst ssa
 var stubPkgs = map[string]bool{
 	"github.com/samaritan-proxy/samaritan/logger": true,
 	"github.com/tevino/log":                      true,
+}
+
+// protoPkgs: registration calls made by generated code's init are skipped.
+var protoPkgs = map[string]bool{
+	"github.com/gogo/protobuf/proto":   true,
+	"github.com/golang/protobuf/proto": true,
 }
 
 // stubMethodPkgs: methods (not constructors) of these packages are empty bodies.
